@@ -431,6 +431,8 @@ class Wrapf(util.WrapperMixin):
             node - ast.EnumNode
             fileinfo - ModuleInfo
         """
+        if not node.wrap.fortran:
+            return
         options = node.options
         ast = node.ast
         output = fileinfo.enum_impl
